@@ -154,7 +154,7 @@ func checkTree(node *Node) error {
 		if node.threshold > len(node.children) {
 			return sharingInternal.ErrValue.WithMessage("threshold must be less than or equal to the number of children")
 		}
-		attrChildren := sliceutils.Filter(node.children, func(child *Node) bool { return child.kind == attribute })
+		attrChildren := sliceutils.Filter(node.children, func(child *Node) bool { return child != nil && child.kind == attribute })
 		uniqueAttrChildren := make(map[sharingInternal.ID]bool)
 		for _, child := range attrChildren {
 			uniqueAttrChildren[child.attr] = true
